@@ -329,7 +329,7 @@ Lemma valid_dstr : valid_prop_dtype DStr = true. Proof. reflexivity. Qed.
 Lemma fixed_encodable name dt sh flat miss : name <> "" -> valid_prop_dtype dt = true -> dt <> DF16 ->
   encodable (name, mkprop (PFixed (mkarr dt sh flat)) miss).
 Proof.
-  intros Hn Hv Hd. unfold encodable, create_props_metadata, encode_prop, upcast_prop, upcast_arr. cbn [fst snd p_vals p_missing a_dt].
+  intros Hn Hv Hd. unfold encodable, create_props_metadata, vlen_dtypes_uniform, cpm_core, encode_prop, upcast_prop, upcast_arr. cbn [fst snd p_vals p_missing a_dt].
   assert (E : dtype_eqb dt DF16 = false) by (destruct dt; try reflexivity; congruence). rewrite E. cbn [p_vals a_dt].
   rewrite Hv, (seqb_neq _ _ Hn). cbn. eexists. eexists. split; reflexivity.
 Qed.
@@ -346,7 +346,7 @@ Proof.
   unfold roi_pv. rewrite Hpv. destruct Hform as [[sh [flat [-> _]]] | [elems [-> [Hlen HF]]]].
   - split; [apply fixed_encodable; [exact Hne | reflexivity | discriminate] | split; [cbn; eexists; reflexivity | exact Hm]].
   - split.
-    + unfold encodable, create_props_metadata, encode_prop. cbn [fst snd].
+    + unfold encodable, create_props_metadata, vlen_dtypes_uniform, cpm_core, encode_prop. cbn [fst snd].
       rewrite (upcast_prop_vlen_id elems _) by (eapply Forall_impl; [|exact HF]; cbn; intros x [Hx _]; rewrite Hx; discriminate).
       cbn [p_vals p_missing].
       destruct elems as [|e r]; [destruct elts; [destruct (keys_of_In [] name) as [H _]; destruct (H Hin) as [? [[] _]] | discriminate]|].
